@@ -71,9 +71,14 @@ operands under distinct names; the three index-lowering rules handle integer and
 slice indices by identical code, and the two advanced ones identify the advanced
 indices identically (sibling agreement); the reshape order stored by the front
 end is the one its own check validated, and the literals the lowering tests are
-among the admitted ones. Not decided: that the index arithmetic is right. The
-seeded misses are exactly that (a dropped `[::-1]`, an offset taken from the
-previous operand instead of the running sum).""",
+among the admitted ones. Not decided: that the index arithmetic is right in
+general. Four structural slices of it are decided, each because independent
+sub-agents broke it more than once (section 6b): the direction of an axis
+permutation (role inference), the C/F mirror of the shape slices in reshape
+(slices evaluated on lists of symbols), the concatenate offsets as a running sum
+(two accepted forms), the broadcast test before any subscript in the einsum
+lowering. The remaining seeded miss is of the value kind (a counter bump moved
+into a branch of the advanced-index lowering).""",
     "C03": """
 The agreement with NumPy's promotion and broadcasting tables is a differential
 statement against an external library's values; no static oracle exists for it
@@ -230,8 +235,9 @@ symbolic components enter lowered lambdas under generator-made names; broadcasti
 decision trees are evaluated abstractly (shared with C03); only a comparison with
 `()` counts as an exact literal comparison. Eight raw comparisons in the reshape
 helpers are reviewed (reshape rejects symbolic axes first). Not decided: that one kernel is right for every size (values) --
-the two remaining seeded misses are of that kind (roll modulo, einsum broadcast
-bookkeeping).""",
+the remaining seeded miss is of that kind (the roll modulo); in `pad` the arm for
+a symbolic axis length is compared with the arm for a static one (sibling
+agreement by case-split evaluation), which no test with static shapes reaches.""",
     "C17": """
 Every iteration over an unordered (or order-tainted) value in the artefact
 producing modules is an instance; it is discharged by form, reviewed (15 entries
